@@ -121,6 +121,13 @@ def rule_enter_guards(ctx: Ctx, which: str, clause: str):
                           why_ok=f"delegate {recv[:60]}",
                           why_bad=f"delegates to {recv}.enter({', '.join(args)}): not an accepted sibling for the same entities", construct=f"{sc.name}.enter:delegate-shape")
                 continue
+            v = m.path.value
+            if v is not None and not any(flow.calls_in(v, nm) for nm in ("apply_new_vehicle_state", "modify_vehicle", "modify_vehicle_state")):
+                # a success that writes no vehicle activity at all: nothing starts here, so there is nothing for an entry
+                # guard to dominate (that such a success exists is TS.enter-installs' finding in C02/C09, not this rule's)
+                ctx.info(clause, f"GD.{which}", f"{sc.name}.enter success at line {m.path.lineno} installs no activity: not an entry", sc.enter, m.path.end,
+                         why="result contains no apply_new_vehicle_state / modify_vehicle call")
+                continue
             if which == "LOC" and loc is not None:
                 n += 1
                 if loc[0] == "cell":
